@@ -182,6 +182,17 @@ func (wkr *worker) startContainer(ctr arvados.Container) {
 		}
 		wkr.mtx.Lock()
 		defer wkr.mtx.Unlock()
+		if wkr.starting[ctr.UUID] != rr {
+			// Someone else (e.g., wkr.probeAndUpdate() ->
+			// wkr.updateRunning() or wkr.Close()) already
+			// moved our runner from wkr.starting to
+			// wkr.running or deleted it while we were in
+			// rr.Start(). Putting it back into wkr.running
+			// now could re-insert a runner that has been
+			// closed already, and the next closeRunner()
+			// would panic (close of closed channel).
+			return
+		}
 		now := time.Now()
 		wkr.updated = now
 		wkr.busy = now
